@@ -177,6 +177,12 @@ def ob_uncommit(cx):
             else:
                 cx.require(not parent_sets, "set_parent_ids without a tree")
             cx.require((len(tags) == 1) == (not keep_tags), "tag removal does not follow keep_tags")
+            if tags:
+                # tags survive only if they point into what is still referenced: the new tip plus the merged
+                # revisions that were re-recorded as pending merges *in a working tree*
+                still = want_parents if tree is not None else ([new_tip] if new_tip != b"null:" else [])
+                cx.require(tags[0][0] == chain[0], "tag removal is not anchored at the old tip")
+                cx.require(tags[0][1] == still, "tag removal keeps tags reachable from %r, expected %r" % (tags[0][1], still))
             cx.cover("uncommitted")
             if len(removed) > 1:
                 cx.cover("several")
